@@ -51,6 +51,7 @@ class Layout:
         self.super = []      # (name, write_addr, nbytes)
         self.onchip = []
         self.scheme = comp.scheme
+        self.extents = []    # [(lo, hi)] index ranges: one per byte-plane of every array (A-idx)
         self.vars = {v['name']: v for v in comp.vars}
         later = []
         for v in comp.vars:
@@ -77,6 +78,9 @@ class Layout:
                     raise Unsupported('memory class ' + v['mem'])
                 A.ram[key] = (a, n)
                 self.sym[name] = a; self.ram.append((name, a, n, v))
+                if v['size'] > 1:
+                    planes = n // v['size']
+                    for k in range(planes): self.extents.append((a + k * v['size'], a + (k + 1) * v['size']))
                 if v['mem'] == 'Superchip': self.super.append((name, a, n))
                 elif v['mem'] != 'Zeropage': self.onchip.append((name, a, n))
                 continue
@@ -87,6 +91,9 @@ class Layout:
                 A.romd[key] = A.rom; A.rom += nb + 3
             rom = A.romd[key]
             self.sym[name] = rom
+            cnt = len(d[1])
+            if cnt:
+                for k in range(nb // cnt): self.extents.append((rom + k * cnt, rom + (k + 1) * cnt))
             if d[0] == 'array':
                 later.append((name, ('romarray', rom, d[1], v['type'])))
             else:
